@@ -1409,7 +1409,10 @@ class Pack(Item):
         return s
 
     def size(self):
-        return struct.calcsize(self.fmt)
+        try:
+            return struct.calcsize(self.fmt)
+        except struct.error as e:
+            raise AssemblerError('invalid pack format "{}": {}'.format(self.fmt, e), self.line)
 
 
 class ShorthandPack(Item):
@@ -2861,10 +2864,13 @@ def transform_compressible(items, constants, labels):
 
         # check if any set of criteria is all true for this item
         compressed = None
-        for name, preds in criteria.items():
-            if all(pred(item, position, env) for pred in preds):
-                compressed = name
-                break
+        try:
+            for name, preds in criteria.items():
+                if all(pred(item, position, env) for pred in preds):
+                    compressed = name
+                    break
+        except ValueError as e:
+            raise AssemblerError(str(e), item.line)
 
         # swap out the instruction for its compressed counterpart
         if compressed is not None:
@@ -3226,14 +3232,20 @@ def resolve_sequences(items):
             new_items.append(item)
             continue
 
-        values = [int(value, base=0) for value in item.values]
+        try:
+            values = [int(value, base=0) for value in item.values]
+        except ValueError as e:
+            raise AssemblerError(str(e), item.line)
 
         data = bytearray()
         for value in values:
             fmt = endianness + formats[item.name]
             if value < 0:
                 fmt = fmt.lower()
-            value = struct.pack(fmt, value)
+            try:
+                value = struct.pack(fmt, value)
+            except struct.error as e:
+                raise AssemblerError('value {} does not fit "{}": {}'.format(value, item.name, e), item.line)
             data.extend(value)
         blob = Blob(item.line, bytes(data))
         new_items.append(blob)
@@ -3277,7 +3289,10 @@ def resolve_packs(items):
             new_items.append(item)
             continue
 
-        data = struct.pack(item.fmt, item.imm)
+        try:
+            data = struct.pack(item.fmt, item.imm)
+        except struct.error as e:
+            raise AssemblerError('value {} does not fit pack format "{}": {}'.format(item.imm, item.fmt, e), item.line)
         blob = Blob(item.line, data)
         new_items.append(blob)
 
